@@ -2,6 +2,7 @@ package c13
 
 import (
 	"fmt"
+	"strings"
 	"testing"
 	"time"
 
@@ -186,6 +187,9 @@ func judgeCaller(c Case, i int, out Outcome, single bool, v *harness.Verdict) {
 		is408 := plain408(a, e, kinds[k])
 		if kinds[k] == "retry" && a.Demand {
 			v.Class("retry-after-honoured:" + e.RA.Form)
+			if e.RA.Form == "sec" && e.RA.Pad > 0 {
+				v.Class("retry-after-honoured:sec-zero-padded")
+			}
 			if next.Start < a.NotBefore {
 				v.Failf("retry-before-retry-after-"+e.RA.Form, "%s: attempt %d answered %d with Retry-After (%s %d) at %v => not before %v, but attempt %d started at %v (gap %v)",
 					who, k, e.Status, e.RA.Form, e.RA.Sec, a.End, a.NotBefore, k+1, next.Start, gap)
@@ -345,7 +349,7 @@ func render(c Case, out Outcome) string {
 			}
 			s += evLabel(e)
 			if e.RA.Form != "" {
-				s += fmt.Sprintf("(RA %s %d%s)", e.RA.Form, e.RA.Sec, e.RA.Text)
+				s += fmt.Sprintf("(RA %s %s%d%s)", e.RA.Form, strings.Repeat("0", e.RA.Pad), e.RA.Sec, e.RA.Text)
 			}
 			if e.LatMs != 0 {
 				s += fmt.Sprintf("+%dms", e.LatMs)
